@@ -102,7 +102,10 @@ int vmock_check_packet(const uint8_t* beg, const uint8_t* end, char* msg, size_t
         if ((size_t)(end - cur) < sizeof(struct VideoFrame)) { snprintf(msg, n, "packet ends %zd bytes into frame %d's header", end - cur, k); return -1; }
         const struct VideoFrame* f = (const struct VideoFrame*)cur;
         size_t want = vmock_expected_frame_bytes(f->shape.dims.width, f->shape.dims.height, (int)f->shape.type);
-        if (f->bytes_of_frame != want) {
+        // lenient walk (packet checks off: a camera that delivers a SMALLER image than the shape it announced before the frame - the
+        // runtime reserved the announced size): the record is at least as large as its image needs and 8-byte granular
+        if (!VM.packet_checks && f->bytes_of_frame >= want && f->bytes_of_frame % 8 == 0) { }
+        else if (f->bytes_of_frame != want) {
             snprintf(msg, n, "frame %d (id %llu, %ux%u type %d): bytes_of_frame=%zu, expected header+image rounded up to 8 = %zu", k, (unsigned long long)f->frame_id, f->shape.dims.width, f->shape.dims.height, (int)f->shape.type, f->bytes_of_frame, want);
             return -1;
         }
